@@ -450,6 +450,9 @@ def _await_descriptor_upload(tor_protocol, onion, progress, await_all_uploads):
         if subtype == 'UPLOAD':
             if hostname_matches('{}.onion'.format(args[1])):
                 attempted_uploads.add(args[3])
+                # Tor may try a directory again after a failure: that
+                # upload is outstanding again
+                failed_uploads.discard(args[3])
                 translate_progress(
                     "wait_descriptor",
                     "Upload to {} started".format(args[3])
